@@ -1,6 +1,7 @@
 package props
 
 import (
+	"bytes"
 	"context"
 	"fmt"
 	"sort"
@@ -42,6 +43,7 @@ func init() {
 	register(&core.Scenario{Name: "c08-lin-mem-immutable", Property: "C08", Weight: 2, Bubble: true, Run: func(env *core.Env) { c08(env, "mem", true) }})
 	register(&core.Scenario{Name: "c08-retag", Property: "C08", Weight: 2, Bubble: true, Run: c08retag})
 	register(&core.Scenario{Name: "c08-commit-vs-write", Property: "C08", Weight: 2, Bubble: true, Run: c08commitWrite})
+	register(&core.Scenario{Name: "c08-session-commits", Property: "C08", Weight: 2, Bubble: true, Run: c08sessionCommits})
 }
 
 type histEntry struct {
@@ -153,12 +155,16 @@ func (p *c08pools) genOp(c *core.Choices, http bool, uploads bool) *reg.Op {
 		op.Kind, op.Digest, op.O0, op.O1 = reg.GetBlobRange, reg.Sha256(blob), 1, int64(c.Range("o1", 2, 5))
 	case 15: // append to the shared upload session
 		op.Kind, op.Handle = reg.UpWrite, 0
-		op.Data = []byte(fmt.Sprintf("<%d>", c.Int("chunkuniq", 1000)))
+		// every chunk is the same two bytes, so that the content of the session is
+		// determined by how many writes took effect, whatever their order
+		op.Data = []byte("ab")
 	case 16:
 		op.Kind, op.Handle = reg.UpSize, 0
 	case 17:
 		op.Kind, op.Handle = reg.UpCommit, 0
-		op.Digest = reg.Sha256(nil) // replaced at run time by the task: the digest of what it believes was written
+		// the digest of the content after k writes, for a seeded k: the commit is right
+		// only if it takes effect at such a moment
+		op.Digest = reg.Sha256(bytes.Repeat([]byte("ab"), c.Int("commit.k", 4)))
 	case 18: // a push that brings a new repository into existence
 		op.Repo = p.extra[c.Int("extrarepo", len(p.extra))]
 		op.Kind, op.Data, op.Digest, op.DeclSize, op.MediaType = reg.PushBlob, blob, reg.Sha256(blob), int64(len(blob)), "application/octet-stream"
@@ -250,7 +256,6 @@ func c08(env *core.Env, kind string, immutable bool) {
 			if uploads {
 				h.ID[0] = uploadID
 			}
-			written := []byte(nil)
 			for _, op := range progs[t] {
 				if op.Kind >= reg.UpWrite && op.Handle == 0 && h.W[0] == nil {
 					w, err := r.PushBlobChunkedResume(ctx, pools.repos[0], uploadID, -1, 0)
@@ -258,9 +263,6 @@ func c08(env *core.Env, kind string, immutable bool) {
 						core.Harnessf("resume: %v", err)
 					}
 					h.W[0] = w
-				}
-				if op.Kind == reg.UpCommit {
-					_ = written
 				}
 				if op.Slow {
 					op.Between = sched.Yield // other tasks run while the listing is being consumed
@@ -362,15 +364,6 @@ func checkLinearizable(env *core.Env, m0 *reg.Model, all []histEntry, prop strin
 			op := input.(*reg.Op)
 			res := output.(*reg.Res)
 			nm := st.m.Clone()
-			if op.Kind == reg.UpCommit {
-				// the committing task names the digest of the session's content at its
-				// linearization point; any such point is acceptable
-				if u := nm.Uploads[op.Handle]; u != nil && res.Err == nil {
-					o2 := *op
-					o2.Digest = res.Desc.Digest
-					op = &o2
-				}
-			}
 			ok, _ := nm.Step(op, res)
 			if !ok {
 				return false, state
@@ -600,4 +593,106 @@ func sortedDigestKeys(m map[ociregistry.Digest]bool) []ociregistry.Digest {
 	}
 	sort.Slice(out, func(i, j int) bool { return out[i] < out[j] })
 	return out
+}
+
+// c08sessionCommits: several handles on one upload session, each task a short
+// program of Write / Commit / Cancel / Size with commits naming the digest of the
+// content after k writes. The history (plus final reads of every digest a commit
+// could have produced) must have a linearization.
+func c08sessionCommits(env *core.Env) {
+	c := env.C
+	ctx := context.Background()
+	mem := ocimem.New()
+	repo := "foo"
+	chunk := []byte("ab")
+	content := func(k int) []byte { return bytes.Repeat(chunk, k) }
+	w0, err := mem.PushBlobChunked(ctx, repo, 0)
+	if err != nil {
+		core.Harnessf("%v", err)
+	}
+	id := w0.ID()
+	m0 := reg.NewModel(false)
+	m0.StrictCodes = false
+	m0.Concurrent = true
+	m0.Named[repo] = true
+	m0.Uploads[0] = &reg.MUpload{Repo: repo, Check: -1}
+	pre := c.Range("prewrites", 0, 2)
+	for i := 0; i < pre; i++ {
+		w0.Write(chunk)
+		m0.Uploads[0].Buf = append(m0.Uploads[0].Buf, chunk...)
+	}
+	ntasks := c.Range("ntasks", 2, 3)
+	progs := make([][]*reg.Op, ntasks)
+	maxK := pre
+	for t := range progs {
+		for i, n := 0, c.Range("proglen", 1, 3); i < n; i++ {
+			op := &reg.Op{Handle: 0, StopAfter: -1, ContentFault: -1}
+			switch c.Weighted("kind", []int{5, 6, 1, 2}) {
+			case 0:
+				op.Kind, op.Data = reg.UpWrite, chunk
+				maxK++
+			case 1:
+				op.Kind = reg.UpCommit
+				op.Digest = reg.Sha256(content(c.Int("commit.k", pre+4)))
+			case 2:
+				op.Kind = reg.UpCancel
+			case 3:
+				op.Kind = reg.UpSize
+			}
+			progs[t] = append(progs[t], op)
+		}
+	}
+	hists := make([][]histEntry, ntasks)
+	sched := env.Sched
+	for t := 0; t < ntasks; t++ {
+		t := t
+		sched.Spawn(fmt.Sprintf("client%d", t), func() {
+			h := reg.NewHandles()
+			h.ID[0] = id
+			w, err := mem.PushBlobChunkedResume(ctx, repo, id, -1, 0)
+			if err != nil {
+				core.Harnessf("resume: %v", err)
+			}
+			h.W[0] = w
+			for _, op := range progs[t] {
+				sched.Yield()
+				e := histEntry{task: t, op: op, call: sched.Seq()}
+				e.res = reg.Exec(ctx, mem, op, h)
+				e.ret = sched.Seq()
+				hists[t] = append(hists[t], e)
+			}
+		})
+	}
+	env.Finally(func() {
+		var all []histEntry
+		for _, h := range hists {
+			all = append(all, h...)
+		}
+		sort.Slice(all, func(i, j int) bool { return all[i].call < all[j].call })
+		last := int64(0)
+		for _, e := range all {
+			last = max(last, e.ret, e.call)
+		}
+		for k := 0; k <= maxK+1; k++ {
+			op := &reg.Op{Kind: reg.GetBlob, Repo: repo, Digest: reg.Sha256(content(k)), StopAfter: -1, ContentFault: -1}
+			e := histEntry{task: ntasks, op: op, call: last + 1, ret: last + 2}
+			last += 2
+			e.res = reg.Exec(ctx, mem, op, nil)
+			all = append(all, e)
+		}
+		for _, e := range all {
+			env.Op(e.op.Kind.String() + ":" + reg.CodeOf(e.res.Err))
+			env.Logf("task %d [%d,%d] %s -> %s", e.task, e.call, e.ret, e.op, e.res)
+			env.Sample("task %d [%d,%d] %s -> %s", e.task, e.call, e.ret, e.op, e.res)
+		}
+		for _, e := range all {
+			if e.op.Kind == reg.GetBlob && e.res.Err == nil && e.res.ReadErr == nil && reg.Sha256(e.res.Data) != e.op.Digest {
+				env.Failf(env.Property+"/stored-content-digest-mismatch/session", "%s returned %d bytes that do not hash to the digest asked for", e.op, len(e.res.Data))
+			}
+		}
+		if core.EngineB {
+			return
+		}
+		checkLinearizable(env, m0, all, "C08")
+	})
 }
